@@ -172,6 +172,13 @@ def exact_resume(m, F, E, f, mk_scene, level, expected_step):
 
 
 def verdict(run, rule, f, probs, und, okmsg, disc=''):
+    # a finding whose text speaks about a symbol that stands for lost precision (a widened loop value) and carries no witness is the
+    # abstraction talking, not the code
+    from .common import abstract_atoms
+    soft = [p for p in probs if abstract_atoms(p) and 'witness' not in p]
+    if soft:
+        probs = [p for p in probs if p not in soft]
+        und = list(und) + ['%s (over an abstracted value: not a witness)' % p[:200] for p in soft[:2]]
     run.ob(rule, short(f.dem), False if probs else (None if und else True), probs[0] if probs else (und[0] if und else okmsg),
            disc=disc, loc=fn_loc(f))
 
